@@ -56,6 +56,11 @@ def ev(v, val, hooks=None):
                 if r is not NotImplemented:
                     return r
         op, a = v.op, v.args
+        if op in ('rxmatch', 'group', 'rxdyn'):
+            from . import rxmodel
+            r = rxmodel.hook(v, val, hooks)
+            if r is not NotImplemented:
+                return r
         if op == 'binop':
             x, y = ev(a[1], val, hooks), ev(a[2], val, hooks)
             try:
